@@ -124,6 +124,17 @@ type cluster struct {
 	StepCheck func(c *cluster) string
 	stepFail  string
 	stopped   bool
+	pending   []pendPkt
+	wake      chan struct{}
+}
+
+// pendPkt: a packet handed to the transport whose fate is decided by the
+// harness at the same virtual instant, after quiescence, in an order that does
+// not depend on which node's goroutine ran first.
+type pendPkt struct {
+	from *cnode
+	p    sentPkt
+	seq  int
 }
 
 func (c *cluster) since() time.Duration { return time.Since(c.t0) }
@@ -140,11 +151,11 @@ func nodePort(i int) int    { return 7946 + i } // distinct ports: a port mix-up
 func nodeAddr(i int) string { return fmt.Sprintf("10.0.0.%d:%d", i+1, nodePort(i)) }
 
 func newCluster(t *testing.T, b *bubble, cfg clusterCfg, ch *chooser) *cluster {
-	c := &cluster{t: t, b: b, cfg: cfg, ch: ch, byAdr: map[string]*cnode{}, t0: time.Now()}
+	c := &cluster{t: t, b: b, cfg: cfg, ch: ch, byAdr: map[string]*cnode{}, t0: time.Now(), wake: make(chan struct{}, 1)}
 	if c.cfg.L0 == 0 {
 		c.cfg.L0 = time.Millisecond
 	}
-	installDetRand()
+	installTimeRand()
 	for i := 0; i < cfg.N; i++ {
 		c.nodes = append(c.nodes, c.spawn(i, 0))
 	}
@@ -154,6 +165,7 @@ func newCluster(t *testing.T, b *bubble, cfg clusterCfg, ch *chooser) *cluster {
 func (c *cluster) spawn(i, gen int) *cnode {
 	n, err := newNode(nodeName(i), nodeIP(i), func(cf *ml.Config) {
 		cf.BindPort = nodePort(i)
+		cf.Delegate.(*delegateRec).Meta = []byte(fmt.Sprintf("meta-%d-g%d", i, gen))
 		if c.cfg.Opts != nil {
 			c.cfg.Opts(i, cf)
 		}
@@ -162,7 +174,6 @@ func (c *cluster) spawn(i, gen int) *cnode {
 	c.b.track(n)
 	cn := &cnode{node: n, idx: i, gen: gen}
 	c.byAdr[nodeAddr(i)] = cn
-	n.D.SetMeta([]byte(fmt.Sprintf("meta-%d-g%d", i, gen)))
 	n.T.OnSend = func(p sentPkt) { c.onSend(cn, p) }
 	n.T.OnDial = func(a ml.Address, d time.Duration) (net.Conn, error) { return c.onDial(cn, a, d) }
 	return cn
@@ -216,6 +227,32 @@ func (c *cluster) onSend(from *cnode, p sentPkt) {
 	if c.stopped {
 		return
 	}
+	c.pending = append(c.pending, pendPkt{from, p, len(c.pending)})
+	select {
+	case c.wake <- struct{}{}:
+	default:
+	}
+}
+
+// flush decides the fate of everything sent at this instant, in canonical order.
+func (c *cluster) flush() {
+	if len(c.pending) == 0 {
+		return
+	}
+	ps := c.pending
+	c.pending = nil
+	sort.SliceStable(ps, func(i, j int) bool {
+		if ps[i].from.idx != ps[j].from.idx {
+			return ps[i].from.idx < ps[j].from.idx
+		}
+		return ps[i].seq < ps[j].seq
+	})
+	for _, pp := range ps {
+		c.decide(pp.from, pp.p)
+	}
+}
+
+func (c *cluster) decide(from *cnode, p sentPkt) {
 	to := c.byAdr[p.To]
 	rec := wireRec{At: c.since(), From: from.Name, To: p.To, Leaves: summarize(p.Buf), Fate: "deliver"}
 	defer func() { c.Wire = append(c.Wire, rec) }()
@@ -392,16 +429,30 @@ func (c *cluster) restart(i int) {
 func (c *cluster) run() {
 	end := c.t0.Add(c.cfg.Horizon)
 	for c.q.Len() > 0 {
-		e := heap.Pop(&c.q).(*cevt)
-		if e.at.After(end) {
+		if c.q[0].at.After(end) {
 			break
 		}
-		if d := time.Until(e.at); d > 0 {
-			time.Sleep(d)
+		// sleep until the next event, waking early whenever a node hands a packet to the transport
+		for {
+			d := time.Until(c.q[0].at)
+			if d <= 0 {
+				break
+			}
+			tm := time.NewTimer(d)
+			select {
+			case <-tm.C:
+			case <-c.wake:
+				tm.Stop()
+			}
+			settle()
+			c.flush()
 		}
+		e := heap.Pop(&c.q).(*cevt)
 		settle()
+		c.flush()
 		e.fn()
 		settle()
+		c.flush()
 		if c.StepCheck != nil && c.stepFail == "" {
 			if m := c.StepCheck(c); m != "" {
 				c.stepFail = fmt.Sprintf("at %v after %s: %s", c.since().Round(time.Microsecond), e.tag, m)
@@ -412,6 +463,7 @@ func (c *cluster) run() {
 		time.Sleep(d)
 	}
 	settle()
+	c.pending = nil
 	c.stopped = true
 }
 
@@ -472,7 +524,39 @@ type nExec struct {
 
 // exploreN runs the deviation-bounded recursion. runOne executes one choice
 // vector. cost(i,alt) is 1 per non-default choice.
-func exploreN(rep *Report, bound int, shardIdx *int, runOne func(prefix []int) nExec, onExec func(x nExec)) {
+func exploreN(rep *Report, bound int, shardIdx *int, runRaw func(prefix []int) nExec, onExec func(x nExec)) {
+	// Determinism is measured, not assumed: a prefix that cannot be replayed is retried, then counted
+	// (never reported as a violation); a violation is reported only if the full choice vector
+	// reproduces it on 4 further runs.
+	runOne := func(prefix []int) nExec {
+		x := runRaw(prefix)
+		for try := 0; try < 3 && x.Verdict == "replay-divergence"; try++ {
+			x = runRaw(prefix)
+		}
+		if x.Verdict == "replay-divergence" {
+			rep.AddExtra("replay_divergences", 1)
+			rep.mu.Lock()
+			rep.Exhaustive = false
+			rep.mu.Unlock()
+			x.Verdict, x.Msg = "", ""
+			return x
+		}
+		if x.Verdict != "" {
+			for i := 0; i < 4; i++ {
+				y := runRaw(x.Choices)
+				if y.Verdict != x.Verdict {
+					rep.AddExtra("unreproducible_verdicts", 1)
+					rep.mu.Lock()
+					rep.Exhaustive = false
+					rep.Notes = append(rep.Notes, "a verdict did not reproduce on replay and was not reported: "+x.Verdict)
+					rep.mu.Unlock()
+					x.Verdict, x.Msg = "", ""
+					break
+				}
+			}
+		}
+		return x
+	}
 	var rec func(prefix []int, used int)
 	rec = func(prefix []int, used int) {
 		if rep.OverBudget() {
